@@ -238,7 +238,9 @@ def run(ctx):
                 kws = rnd.sample(["noise", "seed", "num_per_decade"], rnd.randint(0, 3))
                 if "noise" in kws and "seed" not in kws:
                     kws.append("seed")     # without a seed the noise is drawn afresh on every call: nothing to compare
-                kwtxt = ",".join(f"{k}={ {'noise': rnd.choice(['0.1', '0.5', '1e-2']), 'seed': str(rnd.randint(1, 999)), 'num_per_decade': str(rnd.randint(2, 6))}[k] }" for k in kws)
+                kwtxt = ",".join(f"{k}={ {'noise': rnd.choice(['0.1', '0.5', '1e-2', '0']), 'seed': str(rnd.choice([0, 0, rnd.randint(1, 999)])), 'num_per_decade': str(rnd.randint(2, 6))}[k] }" for k in kws)
+                if rnd.random() < 0.3:
+                    kwtxt = (kwtxt + "," if kwtxt else "") + rnd.choice(["log_min_f=0", "log_max_f=3,log_min_f=0", "log_max_f=0,log_min_f=-2"])
                 spec = "<" + rnd.choice(["CIRCUIT_1", "CIRCUIT_2", "CIRCUIT_5", "CIRCUIT_1_INVALID"]) + (":" + kwtxt if kwtxt else "") + ">"
             fmt = rnd.choice(["csv", "json", "md"])
             low = rnd.choice([0, 0, 1e3, 3e3])
@@ -255,8 +257,17 @@ def run(ctx):
             ctx.note_case(tuple(inp["argv"]))
             ctx.count(f"cli:parse:{fmt}:{'mock' if spec.startswith('<') else 'file'}")
             try:
+                ds_api = filtered(api_data(spec), low, high, ex)
+                if ds_api.get_num_points() < 1:
+                    # nothing is left: the CLI must refuse as well (Props.C19.applyFilters_error_iff)
+                    try:
+                        run_cli(argv)
+                        ctx.add_failing("parse-output-differs", inp, observed="output", expected="ValueError: all data points are masked", clause="'parse' prints the parsed spectrum (after the requested filters and exclusions)")
+                    except ValueError:
+                        ctx.count("cli:parse:all-masked-refused")
+                    continue
                 text = run_cli(argv)
-                expected = df_numbers(filtered(api_data(spec), low, high, ex).to_dataframe())
+                expected = df_numbers(ds_api.to_dataframe())
             except Exception as x:  # noqa
                 ctx.add_failing("cli-raises", inp, observed=f"{type(x).__name__}: {x}"[:200], expected="output", clause="'parse' prints the parsed spectrum (after the requested filters and exclusions)")
                 continue
